@@ -104,5 +104,11 @@ fn main() {
     } else {
         eprintln!("scratch kept at {}", scratch.display());
     }
-    std::process::exit(code);
+    // Leave without running exit handlers or thread-local destructors: runtimes that were shut down in the background
+    // (C08: tasks of a dead-locked burst, a known finding) may still have threads running, and tearing the process down
+    // under them crashed now and then (SIGSEGV inside libc at exit) after the verdict had been printed
+    use std::io::Write;
+    let _ = std::io::stdout().flush();
+    let _ = std::io::stderr().flush();
+    unsafe { libc::_exit(code) }
 }
